@@ -9,6 +9,8 @@ from .units import w_replay
 from .units.k import UnitK
 from .units import k_replay
 from .units import l3run
+from .units.d import UnitD
+from .units import d_replay
 from .units import r_replay
 
 
@@ -267,6 +269,37 @@ PROPS['C05'] = {
     'assumptions': ['independent WSDL reader', 'reqwest/yaserde stand-ins'],
 }
 
+
+def c10_witness(pid, fails, repo):
+    res = d_replay.search(repo)
+    merge_only = all('extend' in f.obligation for f in fails)
+    an = res['merge_anomalies'] if merge_only else (res['seq_anomalies'] or res['merge_anomalies'])
+    out = {'found': bool(an), 'operation_steps_run_on_real_code': res['steps_checked']}
+    if an:
+        out['input'] = an[0]
+        out['more'] = an[1:6]
+    if res.get('error'):
+        out['error'] = res['error']
+    return out
+
+
+PROPS['C10'] = {
+    'units': [UnitD], 'level': 'proof', 'design_ref': 'DESIGN.md 4.10', 'witness': c10_witness,
+    'scope': 'the namespace table of RustDocument (doc.rs): make_abbreviated_namespace, add_namespace_reference, switch_to_target_namespace, '
+             'extend, extend_no_duplicates, empty — for all URIs, prefixes and all sequences of registrations (invariant preserved by each mutator)',
+    'level_text': 'Deductive proof (Verus/Z3) of a representation invariant `wf` over the real text of every mutator: URI<->prefix is a bijection over the '
+                  'table, module name = "mod_"+prefix, every target namespace / prefix binding / the current namespace is an entry of the table; '
+                  'add_namespace_reference never changes an existing binding and binds a new prefix to the entry of that URI; after '
+                  'switch_to_target_namespace(u) the current module is the one of u; make_abbreviated_namespace returns an abbreviation unused by '
+                  'every listed entry. Unbounded: all strings, all table sizes, all call histories (by induction over the invariant).',
+    'level_note': 'Trusted: assumed std contracts (slice Iterator::any/find via closure postconditions, String==str, HashMap<String,_> key model, '
+                  'Extend, Rc clone); derive(PartialEq) of Namespace as field-wise equality. ASSUMED zeep contract: create_mod_name_for_namespace returns '
+                  '"mod_"+abbreviation (format! text is opaque to Verus). Dropped: the 3-character stem computation in make_abbreviated_namespace '
+                  '(pure; its value is irrelevant to uniqueness). Ghost proof blocks are spliced at text anchors. Known finding: RustDocument::extend '
+                  '(merging an imported file) does not preserve the invariant. The envelope xmlns list of write_soap_operation is not covered.',
+    'assumptions': ['String values are determined by their character sequence', 'iterators visit exactly the elements of the slice'],
+}
+
 PLANNED = 'claimed in DESIGN.md but the check is not built yet at this commit (listed here so that no unbuilt check is advertised)'
 NOT_APPLICABLE = {
     'C01': 'Compilability of a whole emitted file is decided by rustc name resolution/type checking and yaserde_derive proc-macro expansion; no pre/postcondition of a zeep function entails it and Verus cannot load the dependency crates (DESIGN 4.1).',
@@ -276,7 +309,7 @@ NOT_APPLICABLE = {
     'C12': 'Determinism across processes/hash seeds/registration orders is a hyperproperty over pairs of runs (HashMap RandomState, flags persisting across calls); not expressible as a per-call contract without a complete functional spec of the generator (DESIGN 4.12).',
     'C17': 'Process-level observables (exit status, panics as error path, clap, File::create effects); no function result to attach a postcondition to and no file-system model in Verus/Kani (DESIGN 4.17).',
     'C18': 'Send/Sync are auto traits decided by rustc\'s trait solver over the real reqwest future types; neither verifier has a notion of auto traits (DESIGN 4.18).',
-    'C08': PLANNED, 'C09': PLANNED, 'C10': PLANNED,
+    'C08': PLANNED, 'C09': PLANNED,
     'C13': PLANNED,
 }
 NOTES = ('All checks: ./check <id> [--tier quick|thorough]; exit 0 ok, 1 VIOLATION, 2 inconclusive (lost anchor / unsupported '
